@@ -1,7 +1,9 @@
 """C10 — generation is a pure, deterministic function of the request (DESIGN §7.10).
 
 oracle   the real CLI entry point run as SEPARATE processes with different PYTHONHASHSEED / cwd / time;
-         the serialized CodeGeneratorResponse bytes must be identical.
+         the serialized CodeGeneratorResponse bytes must be identical.  "time" = the seconds that pass by themselves AND
+         processes whose wall clock is shifted to another year / day / hour (VERIF_FAKE_EPOCH read by genrun_child.py:
+         time.* and datetime.date/datetime answer with the shifted instant), otherwise identical to process 0.
 T1-tie   static inventory scan (c10_scan.py) of every set/sort/impurity site of /repo == pinned
          c10_inventory.json (site -> class S1..S5/N/I); a new or changed site is a broken obligation.
 T2       real `gapic.utils.lines.sort_lines`, the generator's own Jinja `|sort(attribute=…)`, `|sort`,
@@ -452,14 +454,51 @@ ENVS = [{}, {"LANG": "C", "LC_ALL": "C", "TZ": "UTC"}, {"LANG": "en_US.UTF-8", "
         {"LC_ALL": "POSIX", "PYTHONDONTWRITEBYTECODE": "1", "TMPDIR": "/var/tmp", "USER": "nobody"}]
 
 
-def schedules(ctx, r, workdir, nseeds):
+# wall-clock instants (seconds since the epoch) for the clock-shifted processes: other years in both directions, a leap
+# day, the last second of a year (local date = 31 Dec or 1 Jan depending on TZ), beyond 2**31, another century, and the
+# same day at another hour.  The process's clock is moved by harness/genrun_child.py (VERIF_FAKE_EPOCH).
+CLOCK_FAR = [946684799,      # 1999-12-31T23:59:59Z
+             1709210096,     # 2024-02-29T12:34:56Z
+             1813036000,     # 2027-06-15
+             1893456000,     # 2030-01-01T00:00:00Z
+             2150000000,     # 2038-02-17 (> 2**31)
+             4107542400]     # 2100-03-01
+CLOCK_EDGE = 1798761599      # 2026-12-31T23:59:59Z: 2027 in Asia/Tokyo, 2026 in America/St_Johns
+CLOCK_KEY = "VERIF_FAKE_EPOCH"
+
+
+def is_clock_run(entry):
+    return CLOCK_KEY in (entry[2] or {})
+
+
+def clock_schedules(r, base, nclock):
+    """`nclock` processes that differ from process 0 (`base`: same hash seed, same cwd, same environment) ONLY in the
+    wall-clock time they see: one far shift (another year), the year-boundary instant under two time zones, further far
+    shifts, a shift inside the current day."""
+    import time
+    far = r.sample(CLOCK_FAR, len(CLOCK_FAR))
+    now = int(time.time())
+    cands = [{CLOCK_KEY: str(far[0])},
+             {CLOCK_KEY: str(CLOCK_EDGE), "TZ": "Asia/Tokyo"},
+             {CLOCK_KEY: str(CLOCK_EDGE), "TZ": "America/St_Johns"},
+             {CLOCK_KEY: str(far[1])},
+             {CLOCK_KEY: str(now - now % 86400 + r.randrange(86400))},
+             {CLOCK_KEY: str(far[2])}]
+    return [[base[0], base[1], {**(base[2] or {}), **c}] for c in cands[:nclock]]
+
+
+def schedules(ctx, r, workdir, nseeds, nclock=None):
     """[hash seed, cwd, extra environment] per process: distinct PYTHONHASHSEEDs (incl. `random`), three working
-    directories, different locale / time zone / HOME; the first seed is run twice (wall-clock varies by itself)"""
+    directories, different locale / time zone / HOME; the first seed is run twice (wall-clock varies by itself, by
+    seconds); then `nclock` processes whose clock is SHIFTED (other year / day / hour), everything else as in process 0"""
     d1 = os.path.join(workdir, "cwd_a"); d2 = os.path.join(workdir, "cwd_b", "deeper")
     os.makedirs(d1, exist_ok=True); os.makedirs(d2, exist_ok=True)
     seeds = [0] + r.sample(range(1, 4000), nseeds - 2) + ["random"]
     out = [[str(s), (d1 if i % 2 == 0 else d2), ENVS[i % len(ENVS)]] for i, s in enumerate(seeds)]
     out.append([str(seeds[0]), "/", ENVS[1]])
+    nclock = ctx.n(2, 3) if nclock is None else nclock
+    # a separate stream: the hash seeds drawn above (and everything drawn from `r` afterwards) stay what they were
+    out += clock_schedules(apigen.Rng(f"clock:{seeds[1:-1]}"), out[0], nclock)
     return out
 
 
@@ -805,11 +844,11 @@ def snake(name):
     return gu.to_snake_case(name)
 
 
-def run_api(ctx, r, spec, workdir, nseeds, label, probe=False):
-    run_apis(ctx, [(r, spec, label, probe)], workdir, nseeds)
+def run_api(ctx, r, spec, workdir, nseeds, label, probe=False, nclock=None):
+    run_apis(ctx, [(r, spec, label, probe)], workdir, nseeds, nclock)
 
 
-def run_apis(ctx, items, workdir, nseeds):
+def run_apis(ctx, items, workdir, nseeds, nclock=None):
     """items: [(rng, spec, label, probe)]. All processes of all items run in one pool (the APIs are independent)."""
     prepared, jobs = [], []
     for (r, spec, label, probe) in items:
@@ -819,7 +858,7 @@ def run_apis(ctx, items, workdir, nseeds):
             ctx.unsupported += 1
             ctx.count("skipped", "descriptor-builder:" + type(e).__name__)
             continue
-        sched = schedules(ctx, r, workdir, nseeds)
+        sched = schedules(ctx, r, workdir, nseeds, nclock)
         try:
             api, per_service = t2_schema(ctx, r, req, spec)
         except Exception as e:
@@ -855,6 +894,7 @@ def observe(ctx, spec, sched, outs, api, per_service, label):
              distinct_key=["api", json.dumps(spec, sort_keys=True)])
     ctx.count("transport", "ads-templates" if spec["opts"].get("ads") else spec["opts"]["transport"]); ctx.count("snippets", spec["opts"]["snippets"])
     ctx.count("processes", "runs", len(sched))
+    ctx.count("processes", "clock-shifted", sum(map(is_clock_run, sched)))
     ctx.count("equal_short_type_groups", sum(len(equal_key_groups([t for t, _ in v])) for v in per_service.values()))
     if all(rc != 0 for rc in rcs):
         ctx.count("skipped", "generator-crash")           # C01/C14's subject, no response to compare
@@ -873,14 +913,23 @@ def observe(ctx, spec, sched, outs, api, per_service, label):
         summ = diff_summary(ra, rb)
         key = classify({k: [t for t, _ in v] for k, v in per_service.items()}, summ)
         groups = len({o[1] for o in outs})
+        clock_note = ""
+        if all(is_clock_run(sched[j]) for j in differing):
+            # every process that saw the real clock (whatever its hash seed / cwd / environment) answered with the reference
+            # bytes; the ones that differ were given process 0's hash seed, cwd and environment and another wall-clock time
+            key = "depends-on-clock:" + key.split(":", 1)[-1]
+            e = sched[i][2]
+            clock_note = (f" ONLY the clock-shifted process(es) differ ({len(differing)} of {sum(map(is_clock_run, sched))}): process {i} saw epoch "
+                          f"{e[CLOCK_KEY]}" + (f" TZ={e['TZ']}" if "TZ" in e else "") + ", same hash seed / cwd / environment as process 0;")
         order_note = ""
         if summ["file_order"]:
             na, nb = [f.name for f in ra.file], [f.name for f in rb.file]
             j = next(j for j, (x, y) in enumerate(zip(na, nb)) if x != y)
             order_note = f" ORDER of CodeGeneratorResponse.file differs from entry {j}: {na[j]} vs {nb[j]};"
-        ctx.fail(key, f"{groups} different responses over {len(sched)} processes; hash seed {sched[0][0]} vs {sched[i][0]}:{order_note} "
+        ctx.fail(key, f"{groups} different responses over {len(sched)} processes; hash seed {sched[0][0]} vs {sched[i][0]}:{clock_note}{order_note} "
                       f"{[(f['name'], f['first']) for f in summ['files']][:2]}",
-                 {**payload, "differing_files": [f["name"] for f in summ["files"]], "seeds": [sched[0][0], sched[i][0]]})
+                 {**payload, "differing_files": [f["name"] for f in summ["files"]], "seeds": [sched[0][0], sched[i][0]],
+                  "differing_processes": differing, "clock": [sched[j][2].get(CLOCK_KEY) for j in differing]})
     ctx.count("outcome", "identical" if not differing else "differs")
     if api is None:
         return
@@ -1038,7 +1087,9 @@ def run(ctx):
                 "mixins via service yaml, 3-5 extra + nested enums, multi-field method signatures, LRO requests carrying an "
                 "Operation, compute-style extended-operation services (3 operation services); each API is "
                 "generated by N separate processes (distinct PYTHONHASHSEED incl. `random`, three working directories, five "
-                "locale/TZ/HOME environments, same seed twice). distinct by (API spec); function-level T2 cases distinct by input; non-trivial = a response was produced")
+                "locale/TZ/HOME environments, same seed twice) plus 2-3 processes (6 on replay) that differ from the first one only in the wall-clock "
+                "time they see (another year in either direction, 31 Dec 23:59:59Z under two time zones, leap day, > 2**31, year 2100, another "
+                "hour of today). distinct by (API spec); function-level T2 cases distinct by input; non-trivial = a response was produced")
     ctx.assume("option files (retry-config) are referenced by absolute path: the statement fixes 'the same referenced option files'")
     ctx.assume("resource type strings are unique per message/definition within an API (resource-name specification)")
     ctx.assume("identifiers are ASCII (the model's case folding is ASCII); proto3 field names are distinct up to case (protoc enforces it)")
@@ -1086,7 +1137,7 @@ def search(ctx):
                 if a % 2 == 0 and not spec["extras"].get("extop"):
                     spec["opts"]["transport"] = "grpc+rest"
                 items.append((rr, spec, f"search{a}", False))
-            run_apis(ctx, items, workdir, 10)
+            run_apis(ctx, items, workdir, 10, nclock=4)
             if any(f["key"] not in {k["key"] for k in ctx.known} for f in ctx.failures):
                 break
     finally:
@@ -1099,7 +1150,7 @@ def replay(ctx, payload):
     workdir = tempfile.mkdtemp(prefix="gapicverif_c10r_", dir=genrun.SCRATCH)
     try:
         if "spec" in payload:
-            run_api(ctx, ctx.rng("replay"), payload["spec"], workdir, 12, "replay")
+            run_api(ctx, ctx.rng("replay"), payload["spec"], workdir, 12, "replay", nclock=6)
         else:                       # function-level payloads
             t2_functions(ctx, ctx.rng("replay"))
     finally:
@@ -1125,7 +1176,7 @@ CLAIM = dict(
          "real sort_lines, the generator's Jinja |sort filters, query_params, disambiguate, names on real schema objects vs the model "
          "under permutations; T3 of the order of emitted helper/retry definitions, AUTH_SCOPES, sub-package file order and snippet-index "
          "order of every process's response vs the model. Oracle: the real CLI in separate processes (different PYTHONHASHSEED, cwd, "
-         "locale/TZ/HOME environment, time) on APIs with >=3 elements at every sorted site (scopes, sub-packages, mixins, enums, "
+         "locale/TZ/HOME environment, time — incl. processes whose wall clock is shifted by years/days/hours) on APIs with >=3 elements at every sorted site (scopes, sub-packages, mixins, enums, "
          "extended-operation services, equal short resource names, retry codes), serialized responses byte-compared.",
     technique="Lean 4 theorems over List.Perm / stable merge sort (core lemmas) + pinned static inventory + differential T2/T3 + multi-process byte-comparison oracle",
     design="7.10",
